@@ -10,7 +10,7 @@
    Models: Model/Errors.v (error terms, errors.Is / errors.As, the wrappers of compose/error.go,
    the run loop's error paths over a forest of nested graphs, the public paradigms) and
    Model/ErrorsFwd.v (MergeStreamReaders over forwarded sources) — both evaluated by Corr/C13.v. *)
-From Eino Require Import Base.Util Model.Errors Model.ErrorsFwd Proofs.Errors Proofs.ErrorsRun Proofs.ErrorsFwd Proofs.ErrorsMsg Proofs.ErrorsOrigin Proofs.ErrorsE2E Proofs.ErrorsFwdStream Proofs.ErrorsGuard Proofs.ErrorsKeep Proofs.ErrorsHandlers.
+From Eino Require Import Base.Util Model.Errors Model.ErrorsFwd Model.ErrorsNilPanic Proofs.Errors Proofs.ErrorsRun Proofs.ErrorsFwd Proofs.ErrorsMsg Proofs.ErrorsOrigin Proofs.ErrorsE2E Proofs.ErrorsFwdStream Proofs.ErrorsGuard Proofs.ErrorsKeep Proofs.ErrorsHandlers.
 Open Scope string_scope.
 
 (* ------------------------------------------------------------------ the path *)
@@ -205,6 +205,21 @@ Theorem shared_wrapper_v2_refuted :
   legal = [ ["sA"; "x1"; "x"]; ["sB"; "x2"; "x"] ] /\
   existsb (list_eqb String.eqb ["sA"; "x2"; "x1"; "x"]) legal = false.
 Proof. split; vm_compute; reflexivity. Qed.
+
+(* Before the repair of F-C13f a panic with a nil value was taken for a normal return by every
+   recover handler: the panicking node's task "succeeded" (the run named no node or the successor),
+   a forwarder closed its stream without an error item.  Now a panic is a panic whatever its value:
+   the run fails naming the node, the payload (of a nil panic: nil_payload) on the chain; the
+   forwarded stream ends with the panic as an error item. *)
+Theorem nil_panic_v5_refuted :
+  of_call_v5 (fun e => e) (CPanic nil_payload) (NOk [] false) = NOk [] false /\
+  of_call (fun e => e) (CPanic nil_payload) (NOk [] false) = NErr [PanicErr nil_payload] /\
+  fwd_v5 [SVal 1; SBoom nil_payload; SVal 2] = [RVal 1] /\
+  fwd [SVal 1; SBoom nil_payload; SVal 2] = [RVal 1; RErr (PanicErr nil_payload)] /\
+  let F := [ mkGraph false [[NLam "a" FI BOk]; [NLam "b" FI (BPanic nil_payload)]] false 0 BrNone ] in
+  map (fun a => match a with AErr e => (msg_path e, as_panic e) | _ => ([], None) end) (answers F PInvoke false None)
+  = [ (["b"], Some nil_payload) ].
+Proof. repeat split; vm_compute; reflexivity. Qed.
 
 (* ------------------------------------------------------------------ recovering the original error *)
 
